@@ -1,4 +1,6 @@
 import GramModel.Check
+import GramModel.Lemmas.StoreCtx
+import GramModel.Lemmas.StoreMono
 
 /-!
 # C05 — fully annotated well-typed programs are accepted; elaboration only fills holes
@@ -9,6 +11,9 @@ elaborated children in source order and never replaces a hole node — only cell
 This is "nothing rewritten, reordered, duplicated or dropped". -/
 def C05_elab_identity_stmt : Prop :=
   ∀ (fuel : Nat) (t e ty : Tm) (s s' : St), inferS fuel t s = .ok (e, ty) s' → e = t
+theorem C05_elab_identity : C05_elab_identity_stmt := by
+  intro fuel t e ty s s' h
+  exact inferS_elab_id h
 
 /-- Cells only ever go from empty to filled, and no cell disappears: the store after checking
 extends the store before. -/
@@ -18,10 +23,16 @@ def storeExtends (a b : List (Option Tm)) : Prop :=
 def C05_store_monotone_stmt : Prop :=
   ∀ (fuel : Nat) (t e ty : Tm) (s s' : St), inferS fuel t s = .ok (e, ty) s' →
     storeExtends s.store s'.store
+theorem C05_store_monotone : C05_store_monotone_stmt := by
+  intro fuel t e ty s s' h
+  exact ((StoreMono.inferS_le fuel t).out _ _ _ h).1
 
 /-- Diagnostics are only ever added (there is no early return that drops one). -/
 def C05_errors_monotone_stmt : Prop :=
   ∀ (fuel : Nat) (t e ty : Tm) (s s' : St), inferS fuel t s = .ok (e, ty) s' → s.nerrs ≤ s'.nerrs
+theorem C05_errors_monotone : C05_errors_monotone_stmt := by
+  intro fuel t e ty s s' h
+  exact ((StoreMono.inferS_le fuel t).out _ _ _ h).2
 
 /-! ## The repaired group rule (D7), on the witness that overflowed the stack before the fix -/
 
